@@ -269,8 +269,8 @@ def canonImpl (toks : List String) (impl : String) : String :=
     (match impl.splitOn " " with
       | ["ok", x] => if x == "none" then impl else "ok " ++ ":".intercalate ((x.splitOn ":").take 3)
       | _ => impl)
-  | ["restart"] => "ok"
-  | "evict" :: _ => "ok"
+  | ["restart"] => if impl.startsWith "ok" then "ok" else impl     -- `ok <cache lengths>`; anything else: the server did not come back
+  | "evict" :: _ => if impl.startsWith "ok" then "ok" else impl
   | _ => impl
 
 /-- which component of an answer differs — lets a property's check select the correspondence
@@ -465,7 +465,13 @@ def snapCheck (st : St) (toks : List String) (opS impl : String) : List (String 
       if e.2 == impl then (st.snap, st.snapRestart, none)
       else (st.snap, st.snapRestart, some (if st.snapRestart then "obs-changed-restart" else "obs-changed"))
     | none => ((opS, impl) :: st.snap, st.snapRestart, none)
-  else if isIdentity then (st.snap, st.snapRestart || op == "restart", none)
+  else if isIdentity then
+    -- connections do not survive a restart: only the root connection (0) and the HTTP root connection (7),
+    -- which the runner logs in again, can ask the same question afterwards
+    let snap := if op == "restart" then st.snap.filter (fun e =>
+        let c := ((e.1.splitOn " ").filter (· ≠ "")).getD 1 ""
+        c == "0" || c == "7") else st.snap
+    (snap, st.snapRestart || op == "restart", none)
   else ([], false, none)
 
 /-- parse the implementation's `topic` answer: `ok id:name:n:exp:max:repl:msgs:size p1,p2…`, p = `id:cur:msgs:size:segs` -/
@@ -1314,6 +1320,9 @@ def stepLine (st : St) (raw : String) : St × List String :=
         else if viaHttp && noData exp && noData itxt then none
         else some (cls, exp)
       | none => none
+    -- a restart on the files of a graceful shutdown must succeed
+    let extra := extra ++ (if toks == ["restart"] && !implS.startsWith "ok" then
+      [s!"SPEC-VIOL {st.line} class=obs-changed-restart-failed the server did not start again: {implS}"] else [])
     let msgs2 := match sv with
       | none => []
       | some (cls, exp) =>
